@@ -242,6 +242,9 @@ type SimReader struct {
 	ReadsAfter int        // calls made after the tail was first reported
 	tailSeen   bool
 	Reads      int
+	// ZeroEvery > 0: every ZeroEvery-th Read call returns (0, nil) - legal for an io.Reader, never twice in a row
+	ZeroEvery int
+	ZeroReads int
 }
 
 func NewSimReader(data []byte, tail error) *SimReader {
@@ -254,6 +257,10 @@ func NewSimReader(data []byte, tail error) *SimReader {
 func (r *SimReader) Read(p []byte) (int, error) {
 	r.Reads++
 	if len(p) == 0 {
+		return 0, nil
+	}
+	if r.ZeroEvery > 0 && r.Reads%r.ZeroEvery == 0 && r.Pos < len(r.Data) {
+		r.ZeroReads++
 		return 0, nil
 	}
 	if r.Pos >= len(r.Data) {
